@@ -1,3 +1,5 @@
+//go:build verif
+
 package main
 
 // C18: explicit-state search over the real DisjunctRangeSet.
